@@ -151,6 +151,24 @@ var c18Templates = map[string]string{
 	"ChecksumKind":     "!0 = !DIFile(filename: \"a\", directory: \"b\", checksumkind: %s, checksum: \"00\")\n",
 }
 
+// further carriers of families that several instructions carry (scalar and vector operands)
+var c18MoreTemplates = [][2]string{
+	{"FastMathFlag", "define <2 x double> @f(<2 x double> %%a) {\n\t%%r = fmul %s <2 x double> %%a, %%a\n\tret <2 x double> %%r\n}\n"},
+	{"FastMathFlag", "define double @f(double %%a) {\n\t%%r = fneg %s double %%a\n\tret double %%r\n}\n"},
+	{"FastMathFlag", "define i1 @f(double %%a) {\n\t%%r = fcmp %s olt double %%a, %%a\n\tret i1 %%r\n}\n"},
+	{"FastMathFlag", "declare float @g(float)\ndefine float @f(float %%a) {\n\t%%r = call %s float @g(float %%a)\n\tret float %%r\n}\n"},
+	{"FastMathFlag", "declare <4 x float> @g(<4 x float>)\ndefine <4 x float> @f(<4 x float> %%a) {\n\t%%r = call %s <4 x float> @g(<4 x float> %%a)\n\tret <4 x float> %%r\n}\n"},
+	{"FastMathFlag", "define <2 x float> @f(i1 %%c, <2 x float> %%a) {\n\t%%r = select %s i1 %%c, <2 x float> %%a, <2 x float> %%a\n\tret <2 x float> %%r\n}\n"},
+	{"FastMathFlag", "define double @f(double %%a) {\nentry:\n\tbr label %%b\nb:\n\t%%r = phi %s double [ %%a, %%entry ]\n\tret double %%r\n}\n"},
+	{"OverflowFlag", "define <2 x i32> @f(<2 x i32> %%a) {\n\t%%r = shl %s <2 x i32> %%a, %%a\n\tret <2 x i32> %%r\n}\n"},
+	{"OverflowFlag", "@g = global i32 mul %s (i32 1, i32 2)\n"},
+	{"IPred", "@g = global i1 icmp %s (i32 1, i32 2)\n"},
+	{"FPred", "define <2 x i1> @f(<2 x float> %%a) {\n\t%%r = fcmp %s <2 x float> %%a, %%a\n\tret <2 x i1> %%r\n}\n"},
+	{"Tail", "declare void @g()\ndefine void @f() {\n\t%s call fastcc void @g()\n\tret void\n}\n"},
+	{"AtomicOrdering", "define i32 @f(i32* %%p) {\n\t%%r = load atomic i32, i32* %%p %s, align 4\n\tret i32 %%r\n}\n"},
+	{"CallingConv", "declare %s void @g()\ndefine void @f() {\n\tcall %s void @g()\n\tret void\n}\n"},
+}
+
 // the Go type of each family, for the value-level comparison (every value of that type reachable from the module)
 var c18Types = map[string]reflect.Type{
 	"Linkage": reflect.TypeOf(enum.Linkage(0)), "Visibility": reflect.TypeOf(enum.Visibility(0)),
@@ -226,8 +244,17 @@ func c18Modules(c *config, vals map[string][]int64) {
 		fams = append(fams, f)
 	}
 	sort.Strings(fams)
+	// every other carrier of a family: the same loop runs once per (family, template)
+	type famTmpl struct{ fam, tmpl string }
+	var work []famTmpl
 	for _, fam := range fams {
-		tmpl := c18Templates[fam]
+		work = append(work, famTmpl{fam, c18Templates[fam]})
+	}
+	for _, e := range c18MoreTemplates {
+		work = append(work, famTmpl{e[0], e[1]})
+	}
+	for _, ft := range work {
+		fam, tmpl := ft.fam, ft.tmpl
 		f, ok := enumTable[fam]
 		if !ok || tmpl == "" {
 			continue
@@ -247,6 +274,9 @@ func c18Modules(c *config, vals map[string][]int64) {
 				continue // a constant, not a preemption specifier of a definition
 			}
 			src := fmt.Sprintf(tmpl, kw)
+			if strings.Count(tmpl, "%s") == 2 {
+				src = fmt.Sprintf(tmpl, kw, kw)
+			}
 			if fam == "Linkage" && (kw == "external" || kw == "extern_weak") {
 				src = fmt.Sprintf("@g = %s global i32\n", kw) // declarations carry no initialiser
 			}
